@@ -41,8 +41,8 @@ RULE = (
     "generation byte-identical, --check exits 0; distinct_nontrivial = distinct (config, template, async, files) generations"
 )
 BOUNDS = {
-    "quick": "10 corpus + 10 alternative-spelling/explicit-default/keyword-prefixed + 7 hostile + 62 reference-position machines + 12 Stately exports x 5 templates x 2 async x 2 file counts",
-    "thorough": "10 corpus + 10 alternative-spelling/explicit-default/keyword-prefixed + 7 hostile + 172 reference-position machines + all 104 Stately exports x 5 templates x 2 async x 2 file counts",
+    "quick": "10 corpus + 11 alternative-spelling/explicit-default/keyword-prefixed/snake_case + 7 hostile + 62 reference-position machines + 12 Stately exports x 5 templates x 2 async x 2 file counts",
+    "thorough": "10 corpus + 11 alternative-spelling/explicit-default/keyword-prefixed/snake_case + 7 hostile + 172 reference-position machines + all 104 Stately exports x 5 templates x 2 async x 2 file counts",
 }
 ASSUMPTIONS = [
     "the generated runner's main() (demo simulation) is not executed; the logic module / machine builder is",
@@ -130,6 +130,10 @@ def extra() -> Dict[str, Dict[str, Any]]:
         "fromStore": {"invoke": {"id": "imp", "src": "importOrders", "onDone": {"target": "withdrawing", "actions": ["passThrough"]}, "onError": "importing"},
                       "on": {"guardOpen": {"target": "withdrawing", "guard": "isinstanceOk"}}},
         "withdrawing": {"entry": ["raiseAlarm", "asyncTask", "whileWaiting", "tryAgain", "globalReset"], "on": {"NEXT": "importing"}}}}
+    # names written in snake_case with underscores (the bare @action decorator would register them under camelCase)
+    e["snake_case_names"] = {"id": "door", "initial": "closed", "states": {
+        "closed": {"entry": ["log_closed_state"], "on": {"OPEN": {"target": "opened", "guard": "is_open_allowed", "actions": ["ring_the_bell"]}}},
+        "opened": {"invoke": {"id": "w", "src": "fetch_all_data", "onDone": {"actions": ["store_it"]}}, "on": {"CLOSE": "closed"}}}}
     e["legacy_keys"] = {"id": "lk", "initial": "a", "states": {
         "a": {"onEntry": ["inA"], "onExit": ["outA"], "on": {"": {"target": "b", "cond": "auto"}, "N": "b"}}, "b": {"on": {"N": "a"}}}}
     return e
